@@ -37,6 +37,45 @@ pub fn legs(prop: &str, tier: Tier) -> Vec<Leg> {
                 vec![leg("chunk", "chunk", if q { 400_000 } else { 20_000_000 }, &["final", "chunk.0", "chunk.=fill", "chunk.fill+1", "chunk.fill-1", "pending.B", "pending.B-1", "pending.0"])]
             }
         }
+        "C02" => {
+            if n {
+                vec![]
+            } else {
+                vec![
+                    leg("box", "box", if q { 60_000 } else { 2_500_000 }, &["deliver.identical", "deliver.corrupted.rejected", "flip.tag", "flip.body", "flip.nonce", "flip.epk", "flip.key", "truncate", "extend"]),
+                    leg("stream", "stream", if q { 30_000 } else { 1_500_000 }, &["deliver.next.accepted", "deliver.corrupted.rejected", "flip.header", "flip.key", "ad.flip", "flip.body", "flip.mac", "flip.tagbyte", "truncate", "extend"]),
+                ]
+            }
+        }
+        "C03" => {
+            if n {
+                vec![]
+            } else {
+                vec![leg(
+                    "stream",
+                    "stream",
+                    if q { 60_000 } else { 5_000_000 },
+                    &["deliver.next.accepted", "drain.all_accepted", "tx.counter_wrap", "rx.counter_wrap_rekey", "tx.explicit_rekey", "rx.explicit_rekey", "tx.rekey_tag", "tx.any_tag_byte", "replay", "skip", "foreign", "ad.flip", "ad.truncate", "ad.extend", "ad.presence", "flip.body", "flip.mac", "flip.tagbyte"],
+                )]
+            }
+        }
+        "C17" => {
+            if n {
+                vec![]
+            } else {
+                vec![
+                    leg("box", "box", if q { 60_000 } else { 2_500_000 }, &["c17.observed_reject", "flip.tag", "flip.body", "truncate", "extend"]),
+                    leg("stream", "stream", if q { 30_000 } else { 1_500_000 }, &["c17.observed_reject", "flip.body", "flip.mac", "flip.tagbyte", "ad.flip", "truncate", "extend"]),
+                ]
+            }
+        }
+        "C04" => {
+            if n {
+                vec![leg("box-n", "box", if q { 20_000 } else { 1_000_000 }, &["truncate", "garbage"]), leg("stream-n", "stream", if q { 10_000 } else { 500_000 }, &["truncate", "garbage"])]
+            } else {
+                vec![leg("box", "box", if q { 60_000 } else { 3_000_000 }, &["truncate", "garbage", "extend", "splice"]), leg("stream", "stream", if q { 40_000 } else { 2_000_000 }, &["truncate", "garbage", "tx.any_tag_byte"])]
+            }
+        }
         _ => vec![],
     }
 }
